@@ -61,6 +61,11 @@ func (e editor) enter(from *Selection, to *Selection, new bool, strategy editStr
 		m := ml.nextMeta()
 		//fmt.Printf("Begin %s\n", meta.SchemaPath(from.Meta()))
 		for m != nil {
+			if ml.err != nil {
+				// the look-ahead behind m has asked the source which case of a
+				// choice it holds and failed: nothing more is written
+				return ml.err
+			}
 			var err error
 			if meta.IsLeaf(m) {
 				err = e.leaf(from, to, m.(meta.Leafable), new, strategy)
